@@ -64,8 +64,8 @@ Record V (w : bool) (s : st) (k : k10) : Prop := mkV {
 }.
 
 (* scripts allowed by the exclusions D and R *)
-Definition scr_ok (ext : bool) (q : scripts) : bool :=
-  (if ext then queue_noreconn (q_open q) else forallb is_nil (q_open q))
+Definition scr_ok (q : scripts) : bool :=
+  queue_noreconn (q_open q)
   && forallb (forallb is_pubsub) (q_close q) && forallb (forallb is_pubsub) (q_unregw q)
   && queue_noreconn (q_regw q).
 
@@ -85,6 +85,7 @@ Record quiet_rel (s s' : st) : Prop := mkQuiet {
   qr_proto : proto s' = proto s;
   qr_ping : ping s' = ping s;
   qr_incb : incb s' = incb s;
+  qr_cq : cq s' = cq s;
   qr_sched : sched s' = sched s;
   qr_scr : q_connect (scr s') = q_connect (scr s) /\ q_disconnect (scr s') = q_disconnect (scr s) /\
            q_open (scr s') = q_open (scr s) /\ q_close (scr s') = q_close (scr s) /\
@@ -116,7 +117,7 @@ Proof. unfold is_connected. intros ->. destruct x; reflexivity. Qed.
 
 Lemma quiet_trans s1 s2 s3 : quiet_rel s1 s2 -> quiet_rel s2 s3 -> quiet_rel s1 s3.
 Proof.
-  intros A B. destruct A as [A1 A2 A3 A4 A5 A6 A7 A8 A9 A10 A11]. destruct B as [B1 B2 B3 B4 B5 B6 B7 B8 B9 B10 B11].
+  intros A B. destruct A as [A1 A2 A3 A4 A5 Acq A6 A7 A8 A9 A10 A11]. destruct B as [B1 B2 B3 B4 B5 Bcq B6 B7 B8 B9 B10 B11].
   constructor; try congruence.
   - destruct A7 as (a1 & a2 & a3 & a4 & a5 & a6 & a7 & a8). destruct B7 as (c1 & c2 & c3 & c4 & c5 & c6 & c7 & c8).
     repeat split; try congruence. auto.
@@ -145,8 +146,9 @@ Proof.
       * destruct (existsb _ x); rewrite Y4, X4; reflexivity.
 Qed.
 
-(* a nested call does not write: external-loop mode, or _in_callback_mutex is held *)
-Definition NW (c : cfg) (s : st) : Prop := c_ext c = true \/ incb s = true.
+(* a nested call does not write: external-loop mode, or _in_callback_mutex is held, or the CONNECT of the
+   socket is not queued yet *)
+Definition NW (c : cfg) (s : st) : Prop := c_ext c = true \/ incb s = true \/ cq s = false.
 
 Lemma quiet_emit e s : qev e = true -> obs_sound (is_connected s) e ->
   (match e with Call CDisconnect => False | _ => True end) -> quiet_rel s (emit e s).
@@ -159,11 +161,11 @@ Proof.
 Qed.
 
 Lemma quiet_frame s s' :
-  cs s' = cs s -> sock s' = sock s -> outq s' = outq s -> ping s' = ping s -> incb s' = incb s ->
+  cs s' = cs s -> sock s' = sock s -> outq s' = outq s -> ping s' = ping s -> incb s' = incb s -> cq s' = cq s ->
   proto s' = proto s -> nsock s' = nsock s -> sched s' = sched s -> scr s' = scr s -> tr s' = tr s ->
   (regw s = true -> regw s' = true) -> (sock s = None -> regw s' = regw s) -> quiet_rel s s'.
 Proof.
-  intros. constructor; try assumption; try (rewrite H7; repeat split; auto; fail).
+  intros. constructor; try assumption; try (rewrite H8; repeat split; auto; fail).
   - exists []. rewrite app_nil_r. repeat split; auto; try discriminate.
   - exists []. cbn. repeat split; auto; constructor.
 Qed.
@@ -175,7 +177,11 @@ Hypothesis Hq : forall sc s, NW c s -> script_noreconn sc = true ->
   queue_noreconn (q_regw (scr s)) = true -> quiet_rel s (nested sc s).
 
 Lemma NW_quiet s s' : quiet_rel s s' -> NW c s -> NW c s'.
-Proof. intros Q [A|A]; [left; exact A|right]. rewrite (qr_incb _ _ Q). exact A. Qed.
+Proof.
+  intros Q [A|[A|A]]; [left; exact A|right; left|right; right].
+  - rewrite (qr_incb _ _ Q). exact A.
+  - rewrite (qr_cq _ _ Q). exact A.
+Qed.
 Lemma regwq_quiet s s' : quiet_rel s s' -> queue_noreconn (q_regw (scr s)) = true ->
   queue_noreconn (q_regw (scr s')) = true.
 Proof. intros Q. destruct (qr_scr _ _ Q) as (_ & _ & _ & _ & _ & _ & _ & H). exact H. Qed.
@@ -223,12 +229,14 @@ Lemma packet_queue_quiet k s : NW c s -> queue_noreconn (q_regw (scr s)) = true 
   quiet_rel s (fst (packet_queue c nested k s)).
 Proof.
   intros Hnw Hrq Hs Hk Hkd. unfold packet_queue.
-  assert (Em : (match k with KConnect => mkQ k false :: outq s | _ => outq s ++ [mkQ k false] end) = outq s ++ [mkQ k false])
+  assert (Em : (match k with KConnect => set_cq true (set_outq (mkQ k false :: outq s) s) | _ => set_outq (outq s ++ [mkQ k false]) s end)
+               = set_outq (outq s ++ [mkQ k false]) s)
     by (destruct k; try discriminate Hk; reflexivity).
   rewrite Em. clear Em.
   set (s1 := set_outq (outq s ++ [mkQ k false]) s).
-  assert (E : negb (c_ext c) && negb (incb s1) = false).
-  { destruct Hnw as [A|A]; [rewrite A; reflexivity|]. unfold s1. ssimpl. rewrite A. apply andb_false_r. }
+  assert (E : negb (c_ext c) && cq s1 && negb (incb s1) = false).
+  { destruct Hnw as [A|[A|A]]; [rewrite A; reflexivity| |]; unfold s1; ssimpl; rewrite A;
+      [apply andb_false_r|rewrite andb_false_r; reflexivity]. }
   rewrite E. cbn [fst].
   assert (Q1 : quiet_rel s s1).
   { constructor; try reflexivity; try tauto; try (repeat split; auto; fail).
@@ -236,7 +244,7 @@ Proof.
       cbn. rewrite orb_false_r. exact Hkd.
     - exists []. cbn. repeat split; auto; constructor. }
   eapply quiet_trans; [exact Q1|]. apply call_regw_quiet; [|exact Hrq].
-  destruct Hnw as [A|A]; [left; exact A|right; exact A].
+  exact Hnw.
 Qed.
 
 Lemma api_send_quiet ck k s : NW c s -> queue_noreconn (q_regw (scr s)) = true ->
@@ -248,7 +256,7 @@ Proof.
   { apply quiet_emit; [reflexivity|exact I|destruct Hck as [-> | ->]; exact I]. }
   destruct (sock s) eqn:Es; cbn [fst]; [|exact Q1].
   eapply quiet_trans; [exact Q1|]. apply packet_queue_quiet; ssimpl; try assumption.
-  all: try (rewrite Es; discriminate); try (destruct Hnw as [A|A]; [left|right]; exact A).
+  all: try (rewrite Es; discriminate); try exact Hnw.
   rewrite Hkd. discriminate.
 Qed.
 
@@ -263,7 +271,7 @@ Proof.
       - exists [Call CDisconnect]. split; [reflexivity|]. split; [repeat constructor|]. split; [repeat constructor|].
         cbn. rewrite Es. reflexivity. }
     eapply quiet_trans; [exact Q1|]. apply packet_queue_quiet; ssimpl; try assumption; try reflexivity.
-    all: try (rewrite Es; discriminate); try (destruct Hnw as [A|A]; [left|right]; exact A).
+    all: try (rewrite Es; discriminate); try exact Hnw.
   - constructor; ssimpl; try reflexivity; try tauto; try (repeat split; auto; fail).
     + exists []. rewrite app_nil_r. repeat split; auto; try discriminate.
     + exists [Call CDisconnect]. split; [reflexivity|]. split; [repeat constructor|]. split; [repeat constructor|].
